@@ -374,6 +374,7 @@ func (fr *frame) applyContract(st *State, con *Contract, args []*Val, pos token.
 	}
 	pre := st.clone()
 	env := vc.contractEnv(con, ats, nil, pre, pre)
+	env.proving = true
 	for _, rq := range con.Requires {
 		t, err := env.trBool(rq.E)
 		if err != nil {
